@@ -62,6 +62,9 @@ def translate():
         if os.path.exists(os.path.join(VERIF, 'translator/sync2coq.py')) else (0, '')
     if rc2 != 0:
         raise BuildError('sync translator failed', out2)
+    rc3, out3 = run([sys.executable, os.path.join(VERIF, 'translator/images2coq.py'), REPO, gen, os.path.join(hgen, 'images.json')])
+    if rc3 != 0:
+        raise BuildError('image extraction failed', out3)
     return json.load(open(os.path.join(hgen, 'meta.json'))), out + out2
 
 
